@@ -97,3 +97,91 @@ Theorem C01_holds_outside : forall cs vm perm, is_order perm -> forall b t g,
   BTMValue g = fee t.
 Proof. exact holds_outside. Qed.
 Print Assumptions C01_holds_outside.
+
+(* ---- The gas bookkeeping of the model is the code's (translator tools/gofrag) -----------------
+
+   VerifGen.FragValidation.GasState_{setGas, chargeStorageGas, updateUsage} are GENERATED from the
+   methods of GasState in protocol/validation/tx.go on every run (state = the struct's four
+   fields; result = (error tag, state after the call); None = panic); VerifGen.FragConsensus.
+   consensus_* are the constants of consensus/general.go.  C01/Tie.v: [st_of]/[gas_of] convert
+   between the model's [gas] and the generated record, [res_of] maps a generated result to the
+   model's [res] (ErrGasCalculate -> EGasCalc, ErrOverGasCredit -> EOther), [code_consts cs]: the
+   model's constants are those of the code, [i64 x]: x is an int64 value, [st_ok g]: the fields
+   of g are values of their Go types. *)
+From Verif Require Import GoFrag.
+From VerifGen Require Import Checked FragConsensus FragValidation.
+From C01 Require Import Tie.
+
+(* TIE: the three methods are the hand-written definitions the model [validate] is built from *)
+Theorem c01_tie_setGas : forall cs g btm size, code_consts cs ->
+  res_of (GasState_setGas (st_of g) btm size) = set_gas cs g btm size.
+Proof. exact tie_set_gas. Qed.
+Print Assumptions c01_tie_setGas.
+
+Theorem c01_tie_chargeStorageGas : forall g,
+  res_of (GasState_chargeStorageGas (st_of g)) = charge_storage g.
+Proof. exact tie_charge_storage. Qed.
+Print Assumptions c01_tie_chargeStorageGas.
+
+Theorem c01_tie_updateUsage : forall g gl,
+  res_of (GasState_updateUsage (st_of g) gl) = update_usage g gl.
+Proof. exact tie_update_usage. Qed.
+Print Assumptions c01_tie_updateUsage.
+
+(* the constants the witnesses of C01 are evaluated with are the constants of the code *)
+Theorem c01_tie_consts : code_consts real_consts.
+Proof. exact real_consts_are_code_consts. Qed.
+Print Assumptions c01_tie_consts.
+
+(* SPEC of the generated setGas, all int64 inputs: it fails exactly when the BTM amount is negative or
+   txSize * StorageGasRate leaves int64; BTMValue = the amount, GasLeft = min (amount / VMGasRate)
+   MaxGasAmount, StorageGas = the exact product (0 on the overflow path), GasUsed untouched *)
+Theorem c01_code_setGas : forall g btm size, i64 btm -> i64 size ->
+  GasState_setGas g btm size =
+  if btm <? 0 then Some (Some ErrGasCalculate, g)
+  else
+    let gl := Z.min (btm / consensus_VMGasRate) consensus_MaxGasAmount in
+    if in_range I64 (size * consensus_StorageGasRate)
+    then Some (None, mkGasState btm gl (GasState_GasUsed g) (size * consensus_StorageGasRate))
+    else Some (Some ErrGasCalculate, mkGasState btm gl (GasState_GasUsed g) 0).
+Proof. exact setGas_spec. Qed.
+Print Assumptions c01_code_setGas.
+
+(* SPEC of chargeStorageGas: GasLeft -= StorageGas, GasUsed += StorageGas, both exact; it fails exactly
+   when GasLeft - StorageGas leaves int64 or is negative, or GasUsed + StorageGas leaves int64 *)
+Theorem c01_code_chargeStorageGas : forall g, st_ok g ->
+  let b := GasState_BTMValue g in
+  let l := GasState_GasLeft g in let u := GasState_GasUsed g in let s := GasState_StorageGas g in
+  GasState_chargeStorageGas g =
+  if negb (in_range I64 (l - s)) then Some (Some ErrGasCalculate, mkGasState b 0 u s)
+  else if l - s <? 0 then Some (Some ErrGasCalculate, mkGasState b (l - s) u s)
+  else if in_range I64 (u + s) then Some (None, mkGasState b (l - s) (u + s) s)
+  else Some (Some ErrGasCalculate, mkGasState b (l - s) 0 s).
+Proof. exact chargeStorageGas_spec. Qed.
+Print Assumptions c01_code_chargeStorageGas.
+
+(* SPEC of updateUsage: ErrGasCalculate (state untouched) exactly when gasLeft < 0 or GasLeft - gasLeft
+   leaves int64; otherwise GasLeft' = gasLeft, GasUsed' = GasUsed + (GasLeft - gasLeft) (an UNCHECKED
+   int64 addition: it wraps) and ErrOverGasCredit exactly when StorageGas > gasLeft *)
+Theorem c01_code_updateUsage : forall g gasLeft, st_ok g -> i64 gasLeft ->
+  let b := GasState_BTMValue g in
+  let l := GasState_GasLeft g in let u := GasState_GasUsed g in let s := GasState_StorageGas g in
+  GasState_updateUsage g gasLeft =
+  if (gasLeft <? 0) || negb (in_range I64 (l - gasLeft)) then Some (Some ErrGasCalculate, g)
+  else
+    let g' := mkGasState b gasLeft (wrap I64 (u + (l - gasLeft))) s in
+    if s >? gasLeft then Some (Some ErrOverGasCredit, g') else Some (None, g').
+Proof. exact updateUsage_spec. Qed.
+Print Assumptions c01_code_updateUsage.
+
+(* ... and without wrap-around it conserves GasLeft + GasUsed *)
+Theorem c01_code_updateUsage_conserves : forall g gasLeft e g', st_ok g -> i64 gasLeft ->
+  i64 (GasState_GasUsed g + (GasState_GasLeft g - gasLeft)) ->
+  GasState_updateUsage g gasLeft = Some (e, g') -> e <> Some ErrGasCalculate ->
+  GasState_GasLeft g' = gasLeft /\
+  GasState_GasUsed g' = GasState_GasUsed g + (GasState_GasLeft g - gasLeft) /\
+  GasState_GasLeft g' + GasState_GasUsed g' = GasState_GasLeft g + GasState_GasUsed g /\
+  GasState_StorageGas g' = GasState_StorageGas g /\ GasState_BTMValue g' = GasState_BTMValue g /\
+  (e = Some ErrOverGasCredit <-> GasState_StorageGas g > gasLeft).
+Proof. exact updateUsage_conserves. Qed.
+Print Assumptions c01_code_updateUsage_conserves.
